@@ -5,7 +5,7 @@ A_INT = 'A-INT: numpy integers are mathematical integers'
 A_NP = 'A-NP: numpy indexing/broadcasting/view semantics as modelled in sedvc/npmodel.py (ranks <= 3); N-MASK: boolean-mask selection preserves order'
 T_LOOP = 'T-LOOP: independent-iterations rule of sedvc/loops.py (side conditions are obligations)'
 T_GLUE = 'T-GLUE: the sum normaliser applies the Lean-proved lemmas (lemmas/SumLemmas.lean) with the right instances; sum-witness axioms of sedvc/solver.py'
-T_ENGINE = ('T-ENGINE: soundness of the sedvc executor itself (mitigated by the CPython cross-check of the executor run by every check, 80 seeded property-breaking changes, 40 property-preserving refactors, re-detection of the 16 repaired '
+T_ENGINE = ('T-ENGINE: soundness of the sedvc executor itself (mitigated by the CPython cross-check of the executor run by every check, 120 seeded property-breaking changes, 40 property-preserving refactors, re-detection of the 16 repaired '
             'defects when reverted, reachability probes on every returning path, native replay of small counterexamples on the real code)')
 D_ARGSORT = 'dep: np.argsort returns a permutation that sorts ascending'
 D_ARGMIN = 'dep: np.argmin returns an index of a minimal element'
